@@ -913,8 +913,10 @@ inline int Runner::main() {
       std::vector<std::string> sa, sb;
       for (auto &f : a) sa.push_back(f.first);
       for (auto &f : b) sb.push_back(f.first);
-      agree = sa == sb;
+      // the reported signature must appear in BOTH replays; other signatures of the same case may differ between two
+      // executions when the code under test reads stale memory (that is a property of the subject, not of the harness)
       reproduced = std::find(sa.begin(), sa.end(), v.sig) != sa.end();
+      agree = reproduced == (std::find(sb.begin(), sb.end(), v.sig) != sb.end());
     }
     if (!agree || !reproduced) {
       fprintf(stderr, "INTERNAL: case %s#%" PRIu64 " (%s) did not reproduce deterministically (agree=%d reproduced=%d)\n",
